@@ -12,6 +12,7 @@
 import GunYu.Model.Rdb.Str
 import GunYu.Model.Rdb.Ziplist
 import GunYu.Model.Rdb.Listpack
+import GunYu.Model.Rdb.Stream
 
 namespace GunYu.Rdb
 open GunYu
@@ -54,7 +55,8 @@ inductive ObjE where
   | hashZipmap (w : SE) (items : List (Bytes × Bytes × Nat))   -- type 9
   | hashZiplist (w : SE) (zl : ZL)                             -- type 13
   | hashListpack (w : SE) (es : List LPEntry)                  -- type 16
-  | raw (t : UInt8) (bytes : Bytes)                            -- anything else, verbatim (streams are built in Stream.lean)
+  | stream (s : StreamE)                                       -- types 15, 19, 21, 26
+  | raw (t : UInt8) (bytes : Bytes)                            -- anything else, verbatim
   deriving Repr, Inhabited
 
 def ObjE.rtype : ObjE → UInt8
@@ -62,6 +64,7 @@ def ObjE.rtype : ObjE → UInt8
   | .listQuick2 .. => 18 | .setTable .. => 2 | .setIntset .. => 11 | .setListpack .. => 20
   | .zset1 .. => 3 | .zset2 .. => 5 | .zsetZiplist .. => 12 | .zsetListpack .. => 17
   | .hashTable .. => 4 | .hashZipmap .. => 9 | .hashZiplist .. => 13 | .hashListpack .. => 16
+  | .stream s => s.rtype
   | .raw t _ => t
 
 def QNode.enc : QNode → Bytes
@@ -87,7 +90,55 @@ def ObjE.ser : ObjE → Bytes
   | .hashZipmap w _ => w.enc
   | .hashZiplist w _ => w.enc
   | .hashListpack w _ => w.enc
+  | .stream s => s.ser
   | .raw _ b => b
+
+/-! ## well-formedness: what makes a description denote a real Redis value -/
+
+/-- scores the model covers in the old (type 3) format: NaN/±Inf or `[-]digits`
+    below 2^53 (see `floatStrBits` in Exec.lean) -/
+def Score1.wf : Score1 → Prop
+  | .ascii s => s.length < 253 ∧
+      (match s with
+       | 45 :: d => (decToNat? d).any (· < 2 ^ 53)
+       | d => (decToNat? d).any (· < 2 ^ 53)) = true
+  | _ => True
+
+instance Score1.decWf (s : Score1) : Decidable s.wf := by
+  cases s <;> unfold Score1.wf <;> exact inferInstance
+
+def QNode.wf : QNode → Prop
+  | .plain s => s.wf
+  | .packed w es => w.wf ∧ w.val = lpBlob es ∧ lpWf es
+
+instance QNode.decWf (n : QNode) : Decidable n.wf := by
+  cases n <;> unfold QNode.wf <;> exact inferInstance
+
+def ObjE.wf : ObjE → Prop
+  | .str s => s.wf
+  | .listLinked f items => f.fits items.length ∧ items.length < 2 ^ 32 ∧ ∀ s ∈ items, s.wf
+  | .listZiplist w zl => w.wf ∧ w.val = zl.blob ∧ zl.wf
+  | .listQuick f nodes => f.fits nodes.length ∧ nodes.length < 2 ^ 32 ∧
+      ∀ n ∈ nodes, n.1.wf ∧ n.1.val = n.2.blob ∧ n.2.wf
+  | .listQuick2 f nodes => f.fits nodes.length ∧ nodes.length < 2 ^ 32 ∧ ∀ n ∈ nodes, n.wf
+  | .setTable f items => f.fits items.length ∧ items.length < 2 ^ 32 ∧ ∀ s ∈ items, s.wf
+  | .setIntset w width vs => w.wf ∧ w.val = intsetBlob width vs ∧ (width = 2 ∨ width = 4 ∨ width = 8) ∧
+      vs.length < 2 ^ 32 ∧ ∀ v ∈ vs, inSigned (8 * width) v
+  | .setListpack w es => w.wf ∧ w.val = lpBlob es ∧ lpWf es
+  | .zset1 f items => f.fits items.length ∧ items.length < 2 ^ 32 ∧ ∀ p ∈ items, p.1.wf ∧ p.2.wf
+  | .zset2 f items => f.fits items.length ∧ items.length < 2 ^ 32 ∧ ∀ p ∈ items, p.1.wf ∧ p.2 < 2 ^ 64
+  | .zsetZiplist w zl => w.wf ∧ w.val = zl.blob ∧ zl.wf ∧ zl.entries.length % 2 = 0
+  | .zsetListpack w es => w.wf ∧ w.val = lpBlob es ∧ lpWf es ∧ es.length % 2 = 0
+  | .hashTable f items => f.fits items.length ∧ items.length < 2 ^ 32 ∧ ∀ p ∈ items, p.1.wf ∧ p.2.wf
+  | .hashZipmap w items => w.wf ∧ w.val = zipmapBlob items ∧ items.length < 254 ∧
+      ∀ i ∈ items, i.1.length < 253 ∧ i.2.1.length < 253 ∧ i.2.2 < 256
+  | .hashZiplist w zl => w.wf ∧ w.val = zl.blob ∧ zl.wf ∧ zl.entries.length % 2 = 0
+  | .hashListpack w es => w.wf ∧ w.val = lpBlob es ∧ lpWf es ∧ es.length % 2 = 0
+  | .stream s => s.wf
+  | .raw _ _ => True
+
+instance ObjE.decWf (o : ObjE) : Decidable o.wf := by
+  cases o <;> unfold ObjE.wf <;> exact inferInstance
 
 /-! ## the file frame -/
 
@@ -138,6 +189,27 @@ def Item.enc : Item → Bytes
   | .function code => 0xF5 :: code.enc
   | .key k => k.enc
 
+def KeyE.wf (k : KeyE) : Prop :=
+  k.key.wf ∧ k.obj.wf ∧
+  (match k.exp with | .none => True | .ms t => t < 2 ^ 64 | .sec t => t < 2 ^ 32) ∧
+  (match k.idle with | none => True | some (f, n) => f.fits n ∧ n < 2 ^ 32) ∧
+  (match k.freq with | none => True | some n => n < 256)
+
+instance KeyE.decWf (k : KeyE) : Decidable k.wf := by
+  unfold KeyE.wf
+  cases k.exp <;> cases k.idle <;> cases k.freq <;> exact inferInstance
+
+def Item.wf : Item → Prop
+  | .aux k v => k.wf ∧ v.wf
+  | .selectDb f n => f.fits n ∧ n < 2 ^ 32
+  | .resizeDb f1 a f2 b => f1.fits a ∧ f2.fits b
+  | .slotInfo a b c => a < 2 ^ 64 ∧ b < 2 ^ 64 ∧ c < 2 ^ 64
+  | .function code => code.wf
+  | .key k => k.wf
+
+instance Item.decWf (i : Item) : Decidable i.wf := by
+  cases i <;> unfold Item.wf <;> exact inferInstance
+
 inductive FooterE where
   | good      -- the CRC64 of everything before it
   | zero      -- eight zero bytes ("rdbchecksum no")
@@ -149,6 +221,10 @@ structure FileE where
   items : List Item
   footer : FooterE := .good
   deriving Repr, Inhabited
+
+def FileE.wf (f : FileE) : Prop := 1 ≤ f.version ∧ f.version ≤ 13 ∧ ∀ i ∈ f.items, i.wf
+
+instance FileE.decWf (f : FileE) : Decidable f.wf := by unfold FileE.wf; exact inferInstance
 
 /-- four ASCII digits -/
 def verDigits (v : Nat) : Bytes :=
